@@ -6,6 +6,10 @@
   order on well names, sets of any length, every non-decreasing sequence of evaluation times with
   any condition outcomes, any limits.
 
+  Fourth round: `classify_number_partial`, `number_value_digits` (integer literals of any length are number
+  tokens; their value is the correctly rounded binary64), the model computes number values itself and
+  `globMatch` covers bracket expressions (`Literal` excludes `[`).
+
   Third round: `eval_matches_tree` (the match set of a WHOLE tree, any nesting), `eval_cmp_leaf`,
   `sim_run_limits` (several actions over report steps refine the single-action machine),
   `sim_not_pending_no_run`, `actions_add_*`, `load_rst_fresh`, `classify_*` (`Parser::get_type`),
